@@ -297,7 +297,25 @@ def run_flow(ctx, tie, cfg):
                     if state == "perturbed":
                         perturb(fm.model, gen)
                     elif state in ("trained", "retrained"):
-                        fm.train(train_data(rng, 200, cfg["dims"]), plot=False)
+                        # the tail of FlowModel.train: best weights restored -> finalise() (re-estimates what depends on the
+                        # weights, e.g. the normalisation of a resampled base) -> weights saved.  Any other order leaves the
+                        # model in memory or the file on disk inconsistent (seeded changes C08-eA, C12-d).
+                        calls = []
+                        o_load, o_fin, o_save = fm.model.load_state_dict, fm.finalise, fm.save_weights
+                        fm.model.load_state_dict = lambda *a, **k: (calls.append("load_state_dict"), o_load(*a, **k))[1]
+                        fm.finalise = lambda *a, **k: (calls.append("finalise"), o_fin(*a, **k))[1]
+                        fm.save_weights = lambda *a, **k: (calls.append("save_weights"), o_save(*a, **k))[1]
+                        try:
+                            fm.train(train_data(rng, 200, cfg["dims"]), plot=False)
+                        finally:
+                            del fm.model.load_state_dict, fm.finalise, fm.save_weights
+                        fi = [i for i, c in enumerate(calls) if c == "finalise"]
+                        li = [i for i, c in enumerate(calls) if c == "load_state_dict"]
+                        si = [i for i, c in enumerate(calls) if c == "save_weights"]
+                        if not fi or (li and fi[-1] < li[-1]) or (si and si[-1] < fi[-1]) or not si:
+                            Oracle(ctx, case).fail("FlowModel.train:tail-order",
+                                                   f"training ended with the calls {calls}: the flow must be finalised after the best "
+                                                   "weights are restored and before the weights are saved")
                     elif state == "reset_weights":
                         fm.reset_model(weights=True, permutations=False)
                     elif state == "reset_permutations":
@@ -825,7 +843,15 @@ def run_flowproposal(ctx, tie, cfg):
                                 float(lq[i]), tm, {"case": case, "i": i, "op": f"FlowProposal.backward_pass(rescale={rescale})"})
                     extra = np.abs(np64(ldf)) + np.abs(jr)
                     tol = tol_of(np64(Klp), lq2, eps, extra) + 4.0 * jdiff
-                    if altn is None:
+                    # only the n-ball latent priors draw from an alternative latent distribution (uniform in the ball), for which the
+                    # attached density is by construction that distribution's; every other latent prior must attach the density
+                    # the forward pass computes (seeded change C08-eB: 'uniform' silently got an alternative distribution too)
+                    nball = cfg["latent_prior"] in ("uniform_nball", "uniform_nsphere")
+                    if (altn is not None) != nball:
+                        ctx.disagree("FlowProposal.get_alt_distribution: an alternative latent distribution is "
+                                     + ("present" if altn is not None else "missing") + f" for latent_prior={cfg['latent_prior']!r}",
+                                     {"case": case})
+                    if altn is None or not nball:
                         O.close(f"FlowProposal.backward_pass:density-vs-forward_pass(rescale={rescale})",
                                 "density attached by backward_pass != density forward_pass computes at the same point",
                                 lq[ok], lq2[ok], tol[ok], phys[ok])
